@@ -147,9 +147,39 @@ class CannotEval(Exception):
     pass
 
 
-def evaluate(e, env, sym):
+def _subst_closure(ret, arg_value, ups):
+    """closure return expression with its (single) value parameter replaced by a literal and its captures by the parent's
+    expressions"""
+    def go(x):
+        if not isinstance(x, tuple) or not x:
+            return x
+        if x[0] == "param" and x[1] == 2:
+            return ("lit", arg_value)
+        if x[0] == "field" and isinstance(x[1], tuple) and x[1][:2] == ("param", 2) and isinstance(arg_value, tuple) and str(x[2]).isdigit():
+            return ("lit", arg_value[int(x[2])])
+        if x[0] == "upvar" and x[1] < len(ups):
+            return ups[x[1]]
+        if x[0] == "call":
+            return ("call", x[1], x[2], tuple(go(a) for a in x[3]), x[4])
+        if x[0] == "agg":
+            return x[:3] + (tuple(go(a) for a in x[3]),) + x[4:]
+        if x[0] == "binop":
+            return ("binop", x[1], go(x[2]), go(x[3]))
+        if x[0] in ("unop", "cast"):
+            return (x[0], x[1], go(x[2])) + x[3:]
+        if x[0] in ("field", "downcast", "deref", "ref", "discr", "index"):
+            return (x[0], go(x[1])) + tuple(go(y) if isinstance(y, tuple) else y for y in x[2:])
+        return x
+    return go(ret)
+
+
+def evaluate(e, env, sym, prog=None):
     """env: symbol name → int; sym(expr) → symbol name or None (called on deep-stripped sub-expressions)"""
+    if isinstance(e, tuple) and e and e[0] == "lit":
+        return e[1]
     e = ds(e)
+    if isinstance(e, tuple) and e and e[0] == "lit":
+        return e[1]
     name = sym(e)
     if name is not None:
         if name not in env:
@@ -163,8 +193,8 @@ def evaluate(e, env, sym):
             return int(e[2])
         raise CannotEval("const %r" % (e[2],))
     if op == "binop":
-        a = evaluate(e[2], env, sym)
-        b = evaluate(e[3], env, sym)
+        a = evaluate(e[2], env, sym, prog)
+        b = evaluate(e[3], env, sym, prog)
         o = e[1]
         if o.endswith("WithOverflow"):
             o2 = o[:-len("WithOverflow")]
@@ -180,18 +210,39 @@ def evaluate(e, env, sym):
             raise CannotEval("wrap")   # release-profile wrap: treated as not evaluable
         return v
     if op == "unop" and e[1] == "Not":
-        return int(not evaluate(e[2], env, sym))
+        return int(not evaluate(e[2], env, sym, prog))
     if op == "field" and e[2] in ("0", "1"):
-        v = evaluate(e[1], env, sym)
+        v = evaluate(e[1], env, sym, prog)
         if isinstance(v, tuple):
             return v[int(e[2])]
         raise CannotEval("field of scalar")
     if op == "agg" and e[1] == "tuple":
-        return tuple(evaluate(x, env, sym) for x in e[3])
+        return tuple(evaluate(x, env, sym, prog) for x in e[3])
     if op == "agg" and e[1] == "std::option::Option":
         if e[2] == "None":
             return None
-        return ("Some", evaluate(e[3][0], env, sym))
+        return ("Some", evaluate(e[3][0], env, sym, prog))
     if op == "cast":
-        return evaluate(e[2], env, sym)
+        return evaluate(e[2], env, sym, prog)
+    if op == "call" and e[1] == "then_some" and len(e[3]) == 2:
+        return ("Some", evaluate(e[3][1], env, sym, prog)) if evaluate(e[3][0], env, sym, prog) else None
+    if op == "call" and e[1] == "checked_sub" and len(e[3]) == 2:
+        a, b = evaluate(e[3][0], env, sym, prog), evaluate(e[3][1], env, sym, prog)
+        return ("Some", a - b) if a >= b else None
+    if op == "call" and e[1] == "checked_add" and len(e[3]) == 2:
+        return ("Some", evaluate(e[3][0], env, sym, prog) + evaluate(e[3][1], env, sym, prog))
+    if op == "call" and e[1] in ("map", "then", "and_then") and len(e[3]) == 2 and prog is not None:
+        f = ds(e[3][1])
+        if isinstance(f, tuple) and f[:2] == ("agg", "closure") and f[2] in prog.bodies:
+            cb = prog.bodies[f[2]]
+            ret = ds(cb.return_expr())
+            if e[1] == "then":
+                c = evaluate(e[3][0], env, sym, prog)
+                return ("Some", evaluate(_subst_closure(ret, None, f[3]), env, sym, prog)) if c else None
+            o = evaluate(e[3][0], env, sym, prog)
+            if o is None:
+                return None
+            if isinstance(o, tuple) and o and o[0] == "Some":
+                v = evaluate(_subst_closure(ret, o[1], f[3]), env, sym, prog)
+                return ("Some", v) if e[1] == "map" else v
     raise CannotEval(fmt(e)[:80])
